@@ -38,11 +38,12 @@ DEVIATIONS = ("BugVubCurrent", "BugNonceLocal", "BugFeeLocal", "BugSigTwice", "B
 # listed under "beyond_new" in the evidence and printed
 KNOWN_BEYOND = {
     ("SendsOnlyWithQuorum", "stale-designation"), ("SentAccepted", "stale-designation"), ("RelayAccepted", "stale-designation"),
-    ("SentQuorum", "stale-designation"), ("Signers", "stale-designation"),
+    ("SentQuorum", "stale-designation"), ("Signers", "stale-designation"), ("SendsWhenQuorum", "stale-designation"),
     ("SentQuorum", "resend-main-after-backup"), ("SingleSend", "resend-main-after-backup"), ("SentAccepted", "resend-main-after-backup"),
     ("RelayAccepted", "resend-main-after-backup"),
     ("Agreement", "no-fetch-intake-window"), ("SentAccepted", "no-fetch-intake-window"), ("RelayAccepted", "no-fetch-intake-window"),
     ("FeeSum", "no-fetch-intake-window"), ("SentQuorum", "no-fetch-intake-window"),
+    ("SentIsBuilt", "finished-request"), ("SentQuorum", "finished-request"), ("SingleSend", "finished-request"),
 }
 RULE_EXT = ("oracle-service extension: cases = builds (main + backup response transaction found in a real service's incomplete-"
             "transaction map), OnTransaction calls, relays to the producer's pool, included responses, block deliveries and restarts "
@@ -111,7 +112,7 @@ def behaviours(ctx):
                 seen.add(k)
                 out.append(h)
     random.Random(ctx.seed).shuffle(out)
-    return out[: (60 if q else 900)]
+    return out[: (60 if q else 500)]
 
 
 def ground_of(pred, ev, idx):
@@ -126,6 +127,8 @@ def ground_of(pred, ev, idx):
     else:
         s = None
     if s is not None:
+        if s.get("pending") is False and pred in ("SentIsBuilt", "SentQuorum", "SingleSend"):
+            return "finished-request"     # a fetch that outlived its request: the entry it fills left the map with the finishing block
         if ev.get("event") == "tick" and s.get("which") == "main" and (pred == "SingleSend" or (
                 pred in ("SentQuorum", "SentAccepted") and s.get("pushes", 9) < len(s.get("keys") or []))):
             return "resend-main-after-backup"
@@ -197,7 +200,7 @@ def run_ext(ctx):
     os.makedirs(ind, exist_ok=True)
     json.dump(beh, open(os.path.join(ind, "behaviours.json"), "w"))
     # 3. real code
-    res = ctx.go_driver("c01oraclesvc", "TestDriver", env={"VERIF_IN": ind, "VERIF_RANDOM": 45 if q else 700}, timeout=6000)
+    res = ctx.go_driver("c01oraclesvc", "TestDriver", env={"VERIF_IN": ind, "VERIF_RANDOM": 45 if q else 400}, timeout=6000)
     if res.get("crashed"):
         return
     for v in res.get("violations") or []:
